@@ -1,6 +1,6 @@
 (* C11 correspondence: histories written by harness/cmd/c11 are evaluated here by vm_compute. *)
 From Coq Require Import String Ascii.
-From PF Require Export Base.Bytes Graph.Nodes Check.Common.
+From PF Require Export Base.Bytes Graph.Nodes Graph.NodesLazy Check.Common.
 Local Open Scope nat_scope.
 
 (* harness processor: order- and shape-sensitive polynomial hash of the inputs (mirrors meta.run in Go) *)
@@ -20,7 +20,11 @@ Record obs := Obs {
 }.
 Definition row := (nat * bool * nat)%type.
 (* pans: per node, Some salt = its processor panics when its hash (hproc salt) is divisible by 5 *)
-Inductive case := CHist (decls : list decl) (pans : list (option N)) (table0 : list row) (ops : list (op * obs)).
+(* CLazy: histories over processors that SKIP inputs (Graph/NodesLazy.v); kinds: per node 0 = reads every port,
+   1 = gate discipline, 2 = repeat.LineNodeData (Times, then Start / End only when Times > 0) *)
+Inductive case :=
+| CHist (decls : list decl) (pans : list (option N)) (table0 : list row) (ops : list (op * obs))
+| CLazy (decls : list decl) (kinds : list N) (table0 : list row) (ops : list (op * obs)).
 
 (* constructors used by the generated case files (all numerals are N literals there) *)
 Definition opS (n v : N) : op := SetParam (N.to_nat n) (Z.of_N v).
@@ -96,8 +100,56 @@ Fixpoint corr_run (pan : pantab) (s : state) (t : list row) (ops : list (op * ob
           && table_ok (nodes s') t' && corr_run pan s' t' r
       end
   end.
-Definition corr_ok (c : case) : bool :=
-  match c with CHist ds pans t0 ops => table_ok (nodes (init ds)) t0 && corr_run (pan_of pans) (init ds) t0 ops end.
+Definition corr_ok_hist (ds : list decl) (pans : list (option N)) (t0 : list row) (ops : list (op * obs)) : bool :=
+  table_ok (nodes (init ds)) t0 && corr_run (pan_of pans) (init ds) t0 ops.
+
+(* ---------- processors that skip inputs: model = lrun / lvalue / lstale of Graph/NodesLazy.v ---------- *)
+(* gate discipline (harness type GateData): ports Gate, A, B read in this order; stop after Gate when its value is
+   0 mod 3, after A when it is 1 mod 3; the value is the hash of the ports that were read *)
+Definition gate_val (acc : list (list val)) : Z := match acc with (g :: _) :: _ => g | _ => 0%Z end.
+Definition stop_gate : stopfn := fun acc =>
+  match length acc with
+  | 1 => (gate_val acc mod 3 =? 0)%Z
+  | 2 => (gate_val acc mod 3 =? 1)%Z
+  | _ => false
+  end.
+Definition dG (fs : list (string * bool)) (salt : N) : decl := DStruct fs (lazy_proc stop_gate (hproc (Z.of_N salt))).
+(* repeat.LineNodeData, ports in READING order Times, Start, End; value abstraction of the []trs.TRS it returns:
+   0 for the empty result, else (len * 10007 + x(start) * 101 + x(end)) mod hmod  (Line(s, e, t-2) = t-2 points, s, e) *)
+Definition stop_line : stopfn := fun acc => match acc with [t :: _] => (t <=? 0)%Z | [[]] => true | _ => false end.
+Definition line_proc : procfn := fun ins =>
+  match ins with
+  | [t :: _; s :: _; e :: _] => if (t <=? 0)%Z then 0%Z else ((t * 10007 + s * 101 + e) mod hmod)%Z
+  | _ => 0%Z
+  end.
+Definition dL : decl :=
+  DStruct [("Times"%string, false); ("Start"%string, false); ("End"%string, false)] (lazy_proc stop_line line_proc).
+(* float -> vector3 helper node: abstraction = the x coordinate; 1 when the input is not connected *)
+Definition vec_proc : procfn := fun ins => match ins with [x :: _] => x | _ => 1%Z end.
+Definition dV : decl := DStruct [("X"%string, false)] vec_proc.
+Definition stops_of (kinds : list N) : id -> stopfn := fun n =>
+  match nth n kinds 0%N with 1%N => stop_gate | 2%N => stop_line | _ => fun _ => false end.
+
+Definition lmodel_row (s : lstate) (n : id) : option row :=
+  do v <- ver_of (fst s) n; do b <- lstale sorted_order (fuel_of (fst s)) (fst s) (snd s) n; Some (v, b, execs_of (fst s) n).
+Definition ltable_ok (s : lstate) (t : list row) : bool :=
+  match map_opt (lmodel_row s) (seq 0 (length (fst s))) with Some m => rows_eqb m t | None => false end.
+Definition lmstep (stops : id -> stopfn) (s : lstate) (o : op) : option (lstate * option val) :=
+  match o with
+  | Read n => do '(s', v) <- lvalue sorted_order stops (fuel_of (fst s)) s n; Some (s', Some v)
+  | _ => do s' <- lstep sorted_order stops s o; Some (s', None)
+  end.
+Fixpoint lcorr_run (stops : id -> stopfn) (s : lstate) (t : list row) (ops : list (op * obs)) : bool :=
+  match ops with
+  | [] => true
+  | (o, ob) :: r =>
+      let t' := apply_changes t (o_changes ob) in
+      match lmstep stops s o with
+      | None => o_rejected ob && negb (o_panic ob) && rows_eqb t t' && optZ_eqb (o_value ob) None && lcorr_run stops s t' r
+      | Some (s', res) =>
+          negb (o_rejected ob) && negb (o_panic ob) && optZ_eqb (o_value ob) res && ltable_ok s' t' && lcorr_run stops s' t' r
+      end
+  end.
 
 (* ---------- the property, on what the implementation returned ---------- *)
 (* reachability in the tracked wiring (fuel = number of nodes + 1) *)
@@ -174,7 +226,16 @@ Fixpoint states_ok (g : list (list (string * port) * procfn + val)) (n : id) (t 
   | _, _ => false
   end.
 
-Fixpoint prop_run (pan : pantab) (g : list (list (string * port) * procfn + val)) (t : list row) (touched : list bool) (ops : list (op * obs)) : bool :=
+(* one-sided version for processors that skip inputs: a node whose cone is untouched since its last completed execution
+   reports Processed (a touched one may report either: an input that was not read does not make it Stale) *)
+Fixpoint states_le (g : list (list (string * port) * procfn + val)) (n : id) (t : list row) (touched : list bool) : bool :=
+  match t, touched with
+  | [], [] => true
+  | (_, s, _) :: tr, tc :: tcr => (if is_param g n then negb s else (negb s || tc)) && states_le g (S n) tr tcr
+  | _, _ => false
+  end.
+
+Fixpoint prop_run (exact : bool) (pan : pantab) (g : list (list (string * port) * procfn + val)) (t : list row) (touched : list bool) (ops : list (op * obs)) : bool :=
   match ops with
   | [] => true
   | (o, ob) :: r =>
@@ -204,16 +265,28 @@ Fixpoint prop_run (pan : pantab) (g : list (list (string * port) * procfn + val)
                                (seq 0 (length touched))
                | _ => map (fun k => nth k touched true || in_cone gr k (target o)) (seq 0 (length touched))
                end in
-             states_ok g' 0 t' touched' && prop_run pan g' t' touched' r
+             (if exact then states_ok g' 0 t' touched' else states_le g' 0 t' touched') && prop_run exact pan g' t' touched' r
          end
-       else rows_eqb t t' && optZ_eqb (o_value ob) None && prop_run pan g t' touched r)
+       else rows_eqb t t' && optZ_eqb (o_value ob) None && prop_run exact pan g t' touched r)
   end.
 
+Definition prop_ok_hist (exact : bool) (ds : list decl) (pans : list (option N)) (t0 : list row) (ops : list (op * obs)) : bool :=
+  (length t0 =? length ds) &&
+  forallb (fun r : row => let '(v, _, e) := r in (v =? 0) && (e =? 0)) t0 &&
+  states_ok (g_init ds) 0 t0 (map (fun _ => true) ds) &&
+  prop_run exact (pan_of pans) (g_init ds) t0 (map (fun _ => true) ds) ops.
+
+Definition corr_ok (c : case) : bool :=
+  match c with
+  | CHist ds pans t0 ops => corr_ok_hist ds pans t0 ops
+  | CLazy ds kinds t0 ops => ltable_ok (linit ds) t0 && lcorr_run (stops_of kinds) (linit ds) t0 ops
+  end.
+
+(* CLazy: freshness (value read = from-scratch evaluation of the tracked wiring; the processors are functions of all
+   inputs that look only at the prefix they read), executions only during reads, at most one per read, only when the
+   cone was touched since the last one, version delta = execution delta, the node read reports Processed *)
 Definition prop_ok (c : case) : bool :=
   match c with
-  | CHist ds pans t0 ops =>
-      (length t0 =? length ds) &&
-      forallb (fun r : row => let '(v, _, e) := r in (v =? 0) && (e =? 0)) t0 &&
-      states_ok (g_init ds) 0 t0 (map (fun _ => true) ds) &&
-      prop_run (pan_of pans) (g_init ds) t0 (map (fun _ => true) ds) ops
+  | CHist ds pans t0 ops => prop_ok_hist true ds pans t0 ops
+  | CLazy ds kinds t0 ops => prop_ok_hist false ds (map (fun _ => None) ds) t0 ops
   end.
